@@ -104,7 +104,7 @@ theorem convAtom_documented (cfg : Config) (c : Nat) : convAtom cfg c = docAtom 
 
 /-- a string obtained from `t` by replacing every code point independently by a member of what it is documented to
 be converted to (the code point itself when no option applies) -/
-def Generalises (cfg : Config) (t s : Str) : Prop := atomsDen (t.map (docAtom cfg)) s
+def Generalises (cfg : Config) (t s : Str) : Prop := atomsDen false (t.map (docAtom cfg)) s
 
 /-- every string generalises itself: a converted code point is a member of its class (C09) -/
 theorem generalises_self (cfg : Config) (t : Str) : Generalises cfg t t := by
@@ -115,7 +115,7 @@ theorem generalises_self (cfg : Config) (t : Str) : Generalises cfg t t := by
     refine ⟨c, r, rfl, ?_, ih⟩
     unfold docAtom
     repeat' split
-    all_goals simp_all [atomDen]
+    all_goals simp_all [atomDen, Spec.chrMatches]
 
 /-- `Generalises` keeps the length and leaves unconverted code points alone -/
 theorem generalises_length (cfg : Config) (t s : Str) (h : Generalises cfg t s) : s.length = t.length := by
